@@ -187,11 +187,15 @@ pub fn scan<V: Vary>(
         use crate::math::float::f32;
         let dx0 = r0.0.x() - l0.0.x();
         let dx1 = r1.0.x() - l1.0.x();
-        if f32::abs(dx0) > f32::abs(dx1) {
-            l0.dv_dt(r0, dx0.recip())
+        let (l, r, dx) = if f32::abs(dx0) > f32::abs(dx1) {
+            (l0, r0, dx0)
         } else {
-            l1.dv_dt(r1, dx1.recip())
-        }
+            (l1, r1, dx1)
+        };
+        // A degenerate polygon with no horizontal extent at all has
+        // no meaningful dv/dx; don't let 0 * inf turn it into NaN
+        let recip_dx = if dx != 0.0 { dx.recip() } else { 0.0 };
+        l.dv_dt(r, recip_dx)
     };
 
     // Find the y value of the next pixel center (.5) vertically
